@@ -104,6 +104,11 @@ ROLES = {
     '_input_variables': ('elfi.methods.post_processing:RegressionAdjustment', 'method',
                          lambda f: f.params[1:] == ['model', 'sample', 'summary_names'] and
                          f.name != 'fit'),
+    '_init_samples_lazy': ('elfi.methods.inference.samplers:Rejection', 'method',
+                           lambda f: f.params == ['self', 'batch'] and
+                           _has(f, "self.state['samples'] = ") and _has(f, 'np.empty(')),
+    '_update_distances': ('elfi.methods.inference.samplers:Rejection', 'method',
+                          lambda f: bool(_calls(f, 'update_distance')) and f.params == ['self']),
     '_run': ('elfi.executor:Executor', 'method',
              lambda f: f.params[-1:] == ['G'] and _has(f, '.predecessors(') and
              _has(f, "['param']")),
